@@ -62,6 +62,15 @@ def run_case(case, prefix=None):
     lk = Link(drv, peer, mcu=case.get("mcu"))
     sim, med, T, R, ptx, prx = lk.sim, lk.med, lk.T, lk.R, lk.tx, lk.rx
     mode, arc, ardc, rate = case["mode"], case["arc"], case["ard"], case["rate"]
+    # configuration pre-history on both ends: calls that re-assert documented defaults or toggle a feature and put it
+    # back (ack on/off, data rate 250 kbps and back ...); the link that follows is configured as without them
+    for op in case.get("pre", ()):
+        for r, kind in ((ptx, drv), (prx, peer)):
+            if kind == "lite" and op[0] in ("allow_ask_no_ack", "auto_ack", "crc"):
+                continue
+            setattr(r, op[0], op[1])
+    if case.get("pre"):
+        res.label("config-pre-history")
     for r in (ptx, prx):
         r.data_rate = rate
     ptx.arc = arc
@@ -222,6 +231,10 @@ def _expected(med, group, needs_ack, mode, send_only):
 
 
 # ---------------------------------------------------------------------------- case sources
+PRES = [[["ack", False]], [["ack", True], ["ack", False]], [["data_rate", 250]], [["dynamic_payloads", False], ["dynamic_payloads", True]],
+        [["allow_ask_no_ack", True], ["auto_ack", True], ["crc", 2], ["payload_length", 32], ["address_length", 5], ["channel", 76]]]
+
+
 def _enum(arcs, frs, drv="full", peer="full"):
     def gen():
         for arc in arcs:
@@ -247,9 +260,21 @@ def _enum(arcs, frs, drv="full", peer="full"):
                             calls = [["send", "c0ffee01", ana, fr, False]]
                             if follow:
                                 calls.append(follow)
-                            yield {"drv": drv, "peer": peer, "rate": 1, "arc": arc, "ard": 1, "mode": mode,
-                                   "listening": listening, "ackpl": ["0102"] if mode == "ackpl" else [], "word": w,
-                                   "default": "D", "calls": calls}
+                            base = {"drv": drv, "peer": peer, "rate": 1, "arc": arc, "ard": 1, "mode": mode,
+                                    "listening": listening, "ackpl": ["0102"] if mode == "ackpl" else [], "word": w,
+                                    "default": "D", "calls": calls}
+                            yield base
+                            for pre in PRES:
+                                yield dict(base, pre=pre)
+                # acknowledged modes after each pre-history, for the all-delivered / all-lost / ACK-lost words
+                n = (1 + arc) * (1 + fr)
+                for pre in PRES:
+                    for mode, ackpl in (("aa", []), ("ackpl", ["a1a2"])):
+                        for w in ("D" * n, "P" * n, "A" * n, "P" + "D" * (n - 1)):
+                            for so in (False, True):
+                                yield {"drv": drv, "peer": peer, "rate": 1, "arc": arc, "ard": 1, "mode": mode, "listening": True,
+                                       "ackpl": ackpl, "word": w, "default": "D", "calls": [["send", "c0ffee01", False, fr, so], ["resend", so]],
+                                       "pre": pre}
     return gen
 
 
@@ -298,6 +323,7 @@ def strategy(drv="full", peer="full"):
         "calls": st.lists(st.one_of(send, send, sendl, resend), min_size=1, max_size=6),
         "mcu": st.fixed_dictionaries({"spi": st.sampled_from([8, 20, 100, 400]), "jit": st.sampled_from([0, 30]),
                                       "seed": st.integers(0, 999)}),
+        "pre": st.one_of(st.just([]), st.just([]), st.lists(st.sampled_from(PRES), min_size=1, max_size=3).map(lambda ls: [o for l in ls for o in l])),
     })
 
 
